@@ -107,11 +107,36 @@ func main() {
 							sites = append(sites, Site{rel, cur(stack), "hostzone", "Time.Local"})
 						}
 					}
+				case *ast.AssignStmt:
+					// process-local state that outlives a transaction: a package-level variable written outside
+					// init(), or a field of a keeper / message-server receiver written by one of its methods.  Such state
+					// is not rolled back with a failed transaction and is empty again after a process restart.
+					for _, l := range x.Lhs {
+						if w := procStateWrite(p, l, curFn); w != "" && cur(stack) != "init" {
+							sites = append(sites, Site{rel, cur(stack), "procstate", w})
+						}
+					}
+				case *ast.IncDecStmt:
+					if w := procStateWrite(p, x.X, curFn); w != "" && cur(stack) != "init" {
+						sites = append(sites, Site{rel, cur(stack), "procstate", w})
+					}
 				case *ast.GoStmt:
 					sites = append(sites, Site{rel, cur(stack), "go", ""})
 				case *ast.SelectStmt:
 					sites = append(sites, Site{rel, cur(stack), "select", ""})
 				case *ast.CallExpr:
+					if sel, ok := x.Fun.(*ast.SelectorExpr); ok && cur(stack) != "init" {
+						// a mutating method of a sync.* value (sync.Map.Store, Mutex.Lock, Once.Do …) that lives in a
+						// package-level variable or in a keeper field
+						if tv, ok := p.TypesInfo.Types[sel.X]; ok && tv.Type != nil {
+							ts := tv.Type.String()
+							if strings.HasPrefix(strings.TrimPrefix(ts, "*"), "sync.") {
+								if w := procStateWrite(p, sel.X, curFn); w != "" {
+									sites = append(sites, Site{rel, cur(stack), "procstate", w + "." + sel.Sel.Name})
+								}
+							}
+						}
+					}
 					if sel, ok := x.Fun.(*ast.SelectorExpr); ok {
 						if id, ok := sel.X.(*ast.Ident); ok {
 							if pn, ok := p.TypesInfo.Uses[id].(*types.PkgName); ok {
@@ -126,6 +151,9 @@ func main() {
 								}
 								if path == "os" && (sel.Sel.Name == "Getenv" || sel.Sel.Name == "LookupEnv" || sel.Sel.Name == "Hostname" || sel.Sel.Name == "Getpid" || sel.Sel.Name == "Environ") {
 									sites = append(sites, Site{rel, cur(stack), "hostenv", "os." + sel.Sel.Name})
+								}
+								if path == "sync/atomic" && cur(stack) != "init" {
+									sites = append(sites, Site{rel, cur(stack), "procstate", "sync/atomic." + sel.Sel.Name})
 								}
 								if path == "math/rand" || path == "crypto/rand" || strings.HasSuffix(path, "libs/rand") {
 									sites = append(sites, Site{rel, cur(stack), "rand", path + "." + sel.Sel.Name})
@@ -161,4 +189,60 @@ func cur(stack []string) string {
 		return ""
 	}
 	return stack[0]
+}
+
+// procStateWrite: does the expression denote (part of) a package-level variable, or a field reached through the
+// receiver of a Keeper / msgServer method?  Returns a stable description, "" otherwise.
+func procStateWrite(p *packages.Package, e ast.Expr, fn *ast.FuncDecl) string {
+	root := e
+	viaField := false
+	for {
+		switch x := root.(type) {
+		case *ast.IndexExpr:
+			root = x.X
+			continue
+		case *ast.SelectorExpr:
+			if id, ok := x.X.(*ast.Ident); ok {
+				if _, isPkg := p.TypesInfo.Uses[id].(*types.PkgName); isPkg {
+					// pkg.Var: a package-level variable of another package
+					if v, ok := p.TypesInfo.Uses[x.Sel].(*types.Var); ok && v.Pkg() != nil && v.Parent() == v.Pkg().Scope() {
+						return "package variable " + v.Pkg().Name() + "." + v.Name()
+					}
+					return ""
+				}
+			}
+			viaField = true
+			root = x.X
+			continue
+		case *ast.StarExpr:
+			root = x.X
+			continue
+		case *ast.ParenExpr:
+			root = x.X
+			continue
+		}
+		break
+	}
+	id, ok := root.(*ast.Ident)
+	if !ok {
+		return ""
+	}
+	obj := p.TypesInfo.Uses[id]
+	if obj == nil {
+		obj = p.TypesInfo.Defs[id]
+	}
+	v, ok := obj.(*types.Var)
+	if !ok || v.Pkg() == nil {
+		return ""
+	}
+	if v.Parent() == v.Pkg().Scope() {
+		return "package variable " + v.Name()
+	}
+	if viaField && fn != nil && fn.Recv != nil && len(fn.Recv.List) == 1 && len(fn.Recv.List[0].Names) == 1 && fn.Recv.List[0].Names[0].Name == id.Name {
+		rt := types.ExprString(fn.Recv.List[0].Type)
+		if strings.Contains(rt, "Keeper") || strings.Contains(rt, "msgServer") || strings.Contains(rt, "queryServer") {
+			return "field of receiver " + rt + ": " + types.ExprString(e)
+		}
+	}
+	return ""
 }
